@@ -1126,12 +1126,35 @@ def pp_stage(ctx, impl, logic):
         ctx.broken("hypotheses:c20:wf", "cond_parser returned a condition outside wfC: %s" % sexp.dumps(s_expr(notwf[0])))
 
 
+def to_printable_shape(c):
+    """Re-arrange a program into the shape parser2 returns: statements of a block in a right-nested
+    sequence, a conditional only as the last statement of its block (others are moved to the end)."""
+    def stmts(x):
+        return stmts(x[1]) + stmts(x[2]) if x[0] == "seq" else [x]
+
+    def fix(x):
+        if x[0] == "cond":
+            return ("cond", x[1], to_printable_shape(x[2]), to_printable_shape(x[3]))
+        if x[0] == "while":
+            return ("while", x[1], x[2], to_printable_shape(x[3]))
+        return x
+    ss = [fix(x) for x in stmts(c)]
+    conds = [x for x in ss if x[0] == "cond"]
+    ss = [x for x in ss if x[0] != "cond"] + conds[:1]
+    out = ss[-1]
+    for x in reversed(ss[:-1]):
+        out = ("seq", x, out)
+    return out
+
+
 def com_pp_stage(ctx, impl):
     """print_com -> com_parser of programs: model printer/parser against the real ones; meaning
     preserved (reference interpreter on a few states)."""
     rng = ctx.rng("compp")
     n = ctx.scale(300, 4000)
     coms = [gen_com(rng, rng.randint(0, 4), VARS[:3]) for _ in range(n)]
+    # half of them in the shape print_com can express (`;` nested to the right, no conditional before a `;`)
+    coms = [to_printable_shape(c) if i % 2 else c for i, c in enumerate(coms)]
     lines, texts = [], []
     for c in coms:
         vs = sorted(vars_of(c, set()))
@@ -1184,6 +1207,27 @@ def com_pp_stage(ctx, impl):
         ctx.count("compp:%s" % ("identical" if same else "different-tree"))
         if not same:
             check_com_roundtrip(ctx, impl, c)
+    # com_parse_print: for the programs the model calls printable, the model's round trip is the identity (up to
+    # negative constants) and so is the real one
+    outp = ctx.lean_driver(EXE, [sexp.dumps(["printable", s_com(c)]) for c in coms])
+    if outp is None or len(outp) != len(coms):
+        ctx.broken("correspondence:c20:driver", "model driver unavailable (printable)")
+    else:
+        nprint = 0
+        for i, (c, l) in enumerate(zip(coms, outp)):
+            fl = sexp.loads(l)
+            if fl[0] != "T":
+                continue
+            nprint += 1
+            if fl[1] != "T":
+                ctx.broken("hypotheses:c20:printable", "printableCom holds but the model's parseCom (ppCom c) is not normNegCom c: %s" % sexp.dumps(s_com(c)))
+                break
+            if texts[i] is not None:
+                r_p = parse_real(impl, texts[i], com=True)
+                if r_p != ("ok", norm_negconst_com(c)):
+                    ctx.broken("correspondence:c20:printable", "the model calls %s printable, but com_parser reads its print_com text as %s" % (sexp.dumps(s_com(c)), r_p))
+                    break
+        ctx.count("printableCom c: parse(print c) = c in model and code", nprint)
     # hypotheses and statement of lex_print_com on every generated program
     outl = ctx.lean_driver(EXE, [sexp.dumps(["lexcom", s_com(c)]) for c in coms])
     if outl is None or len(outl) != len(coms):
